@@ -3,11 +3,13 @@
 (* Request, Response): C08, C09, C10.                                        *)
 (*                                                                           *)
 (* ts_props replaces the listed attributes of a class by properties that     *)
-(* read and write a threading.local() which is selected through a variable   *)
-(* of the decorator's closure -- ONE variable per class -- rebound by every  *)
-(* __init__ of any instance of the class (`bound`).  Each instance owns a    *)
-(* store (kept in its _ts_props slot); a threading.local has one value per   *)
-(* thread and attribute (`slot`).                                            *)
+(* read and write a threading.local() store.  Each instance owns a store      *)
+(* (kept in its _ts_props slot); a threading.local has one value per thread   *)
+(* and attribute (`slot`).  Which store an accessor uses is decided by a      *)
+(* per-class, PER-THREAD "current store" variable of the decorator's closure  *)
+(* (`bound[<<thread, class>>]`), set by every __init__ of an instance of the  *)
+(* class in that thread.  (Before the repair of /repo this variable was one   *)
+(* per class for the whole process; see DESIGN.md, finding C10.)              *)
 (*                                                                           *)
 (* An accessor event is                                                       *)
 (*   [ev |-> "bind"|"set"|"get"|"del", cls, inst, prop, vid]                 *)
@@ -33,7 +35,8 @@ PutAll(f, ks, v) == [x \in DOMAIN f \cup ks |-> IF x \in ks THEN v ELSE f[x]]
 
 \* The store an accessor call hits: the class-level closure variable (as the code is),
 \* or the instance's own store (what a per-instance lookup would do).
-HitAsIs(bound, op) == bound[op.cls]
+\* `none`: what stands for "no current store in this thread yet" in the caller's vocabulary of stores
+HitAsIs(bound, t, op, none) == IF <<t, op.cls>> \in DOMAIN bound THEN bound[<<t, op.cls>>] ELSE none
 HitOwn(op) == op.inst
 
 \* Effect of one accessor event by thread t that hit store h and (for get) observed value v.
@@ -43,7 +46,7 @@ Apply(st, t, op, h, v) ==
   IF op.ev = "req" THEN   \* a new top-level request starts on thread t: nothing it wrote earlier counts any more
     [st EXCEPT !.ghost = [k \in DOMAIN @ |-> IF k[1] = t THEN Stale ELSE @[k]]]
   ELSE IF op.ev = "bind" THEN
-    [st EXCEPT !.bound = [@ EXCEPT ![op.cls] = op.inst],
+    [st EXCEPT !.bound = Put(@, <<t, op.cls>>, op.inst),
                !.slot = PutAll(@, {<<op.inst, t, p>> : p \in PropsOf(op.cls)}, NoneV),
                !.ghost = PutAll(@, {<<t, op.inst, p>> : p \in PropsOf(op.cls)}, NoneV)]
   ELSE IF op.ev = "set" THEN
@@ -55,5 +58,5 @@ Apply(st, t, op, h, v) ==
   ELSE \* get
     [st EXCEPT !.bad = @ \/ (v # Look(st.ghost, <<t, op.inst, op.prop>>))]
 
-InitSt(b0) == [bound |-> b0, slot |-> <<>>, ghost |-> <<>>, bad |-> FALSE]
+InitSt == [bound |-> <<>>, slot |-> <<>>, ghost |-> <<>>, bad |-> FALSE]
 =============================================================================
